@@ -96,11 +96,20 @@ def _parse_full_length(term: str, repo=None):
     if not (isinstance(e, ast.BinOp) and isinstance(e.op, ast.Add)):
         return None
     a, b = e.left, e.right
-    if isinstance(a, ast.Constant):
-        a, b = b, a
-    if not (isinstance(b, ast.Constant) and isinstance(b.value, int)):
+
+    def const_of(x):
+        if isinstance(x, ast.Constant) and isinstance(x.value, int) and not isinstance(x.value, bool):
+            return x.value
+        if repo is not None and not isinstance(x, ast.Constant):
+            v = repo.try_fold(x, repo.module('dulprovider'), repo.cls('dulprovider', 'DULServiceProvider'))
+            if isinstance(v, int) and not isinstance(v, bool):
+                return v       # ``S.size`` of a struct.Struct constant, a named constant
         return None
-    k = b.value
+    if const_of(a) is not None:
+        a, b = b, a
+    k = const_of(b)
+    if k is None:
+        return None
 
     def buf_slice(sl):
         if not (isinstance(sl, ast.Subscript) and ast.unparse(sl.value) == BUF and isinstance(sl.slice, ast.Slice)):
@@ -117,8 +126,10 @@ def _parse_full_length(term: str, repo=None):
             return None
         fmt = {('big', 4): '>L', ('little', 4): '<L', ('big', 2): '>H', ('little', 2): '<H'}.get((order, bs[1] - bs[0]), '?%s%d' % (order, bs[1] - bs[0]))
         return fmt, bs[0], bs[1], k
-    if not (isinstance(a, ast.Subscript) and isinstance(a.slice, ast.Constant) and a.slice.value == 0):
+    if not (isinstance(a, ast.Subscript) and isinstance(a.slice, ast.Constant) and isinstance(a.slice.value, int)
+            and not isinstance(a.slice.value, bool)):
         return None
+    field_index = a.slice.value
     call = a.value
     if not (isinstance(call, ast.Call) and isinstance(call.func, ast.Attribute)):
         return None
@@ -135,19 +146,35 @@ def _parse_full_length(term: str, repo=None):
             fmt = v.fmt
     if fmt is None:
         return None
+    # the selected field of the struct: its own format and its byte range inside the struct (pad bytes ``x`` take room
+    # but yield no value)
+    from ..layout import parse_fmt
+    try:
+        order, fields = parse_fmt(fmt)
+        if order not in '<>!=':
+            return None       # native alignment: layout depends on the platform
+        total = _st.calcsize(fmt)
+    except (_st.error, Exception):
+        return None
+    pos, vals = 0, []
+    for ch, w in fields:
+        if ch != 'x':
+            vals.append((ch, pos, w))
+        pos += w
+    if pos != total or not (-len(vals) <= field_index < len(vals)):
+        return None
+    ch, fo, fw = vals[field_index]
+    ffmt = order + ch
     if meth == 'unpack' and len(args) == 1:
         bs = buf_slice(args[0])
-        if bs is None:
-            return None
-        return fmt, bs[0], bs[1], k
+        if bs is None or bs[0] is None or bs[1] is None or bs[1] - bs[0] != total:
+            return (ffmt, bs[0], bs[1], k) if bs is not None and len(vals) == 1 else None
+        return ffmt, bs[0] + fo, bs[0] + fo + fw, k
     if meth == 'unpack_from' and args and ast.unparse(args[0]) == BUF:
         off = args[1].value if len(args) > 1 and isinstance(args[1], ast.Constant) else 0 if len(args) == 1 else None
         if off is None:
             return None
-        try:
-            return fmt, off, off + _st.calcsize(fmt), k
-        except _st.error:
-            return None
+        return ffmt, off + fo, off + fo + fw, k
     return None
 
 
@@ -320,8 +347,16 @@ def run(repo, rep):
                 pass  # order irrelevant: the slice was taken from the old buffer value (terms are values)
         # guards on the path, at the time of the decode
         bounds = [b for b in (_len_buf_bound(c) for c in dec.conds) if b]
-        g1 = [sl for (t, sl) in bounds if t.isdigit() and True]
-        g1v = [int(t) + sl for (t, sl) in bounds if t.isdigit()]
+        def as_int(t):
+            """the bound as an integer: a literal, or an expression that folds to one (``S.size``, a named constant)"""
+            if t.isdigit():
+                return int(t)
+            try:
+                v = repo.try_fold(ast.parse(t, mode='eval').body, repo.module('dulprovider'), repo.cls('dulprovider', 'DULServiceProvider'))
+            except SyntaxError:
+                return None
+            return v if isinstance(v, int) and not isinstance(v, bool) else None
+        g1v = [as_int(t) + sl for (t, sl) in bounds if as_int(t) is not None]
         if not g1v:
             problems.append('no guard ensures the header is complete before the length field is read')
         elif max(g1v) != hdr:
